@@ -2296,7 +2296,8 @@ class LinearOperator(object):
                     )
 
             inv_root = self._root_inv_decomposition(initial_vectors)
-            if initial_vectors is not None and initial_vectors.size(-1) > 1:
+            # (structured overrides return one root without a leading probe dimension)
+            if initial_vectors is not None and initial_vectors.size(-1) > 1 and inv_root.dim() > self.dim():
                 inv_root = _postprocess_lanczos_root_inv_decomp(self, inv_root, initial_vectors, test_vectors)
         elif method == "symeig":
             evals, evecs = self._symeig(eigenvectors=True)
